@@ -184,11 +184,16 @@ def run_shards(workdir: Path, header: str, chk_module: str, case_type: str, chec
         return base, path, rc, out, res
 
     with ThreadPoolExecutor(max_workers=NCPU) as ex:
-        for base, path, rc, out, res in ex.map(one, shards):
-            if res is None:
-                broken.append(f"{path.name}: rc={rc}: {out[-2000:]}")
-            else:
-                failing.extend(base + i for i in res)
+        results = list(ex.map(one, shards))
+    for base, path, rc, out, res in results:
+        if res is None and rc == 124:
+            # timed out while the machine was busy: once more, alone, with three times the budget
+            rc, out = run_coqc(path, timeout=3 * COQC_TIMEOUT)
+            res = parse_failing(out) if rc == 0 else None
+        if res is None:
+            broken.append(f"{path.name}: rc={rc}: {out[-2000:]}")
+        else:
+            failing.extend(base + i for i in res)
     info = {"shards": len(shards), "shard_size": shard_size, "broken_shards": broken}
     if broken:
         return None, info
